@@ -16,6 +16,21 @@ claimed = {
          "Trusted: the []bool model and packing in harness/checks/c18.go; hooks VerifBitListState/VerifBitListClone (read/copy only). Bounds (depth, k) in evidence.bounds.",
          "4.C18"),
 }
+
+E_NOTE = "Trusted: the reference decoder and tables in harness/oracle (own transcriptions of the standards, validated structurally and by mutation demonstrations). Small-scope hypothesis: exhaustive up to the word lengths / grids recorded in evidence.coverage.bounds."
+def E(text): return text
+claimed.update({
+ "C05": ("E", "bounded exhaustive enumeration of Code 128 contents x checksum variants, each symbol decoded by an independent strict reference decoder (code sets A/B/C, switches, check character)",
+         "Every content over class-representative, full-alphabet and macro alphabets up to the stated lengths, and a length grid 1..82, is encoded by the real encoder and decoded from its pixels by a reference decoder that shares no table with the library; the decoded runes, the modulo-103 check character and the code-set transition sequences are compared/recorded for every execution.", E_NOTE, "4.C05"),
+ "C06": ("E", "exhaustive enumeration of EAN inputs (all 10^7 seven-digit strings; eight-digit strings; 12/13-digit family; malformed strings), decoded by an independent reference decoder",
+         "All seven-digit inputs and (thorough) all 10^8 eight-digit inputs are executed; acceptance, appended/validated GS1 check digit, guard bars, L/G/R digit sets, EAN-13 first-digit parity, Content and kind are checked on each.", E_NOTE, "4.C06"),
+ "C07": ("E", "bounded exhaustive enumeration of Code 39/93 texts x includeChecksum x fullASCII, decoded by independent reference decoders (patterns, gaps, check characters mod 43 / C,K mod 47, full-ASCII pairs)",
+         "All words up to length 2 (thorough 3) over the complete alphabets in all four option mixes for both symbologies, plus strings longer than the Code 93 weight periods with every single and double foreign position, are encoded and decoded back; check characters must be present exactly when requested.", E_NOTE, "4.C07"),
+ "C08": ("E", "bounded exhaustive enumeration of Codabar strings and digit strings (both 2-of-5 variants, AddCheckSum), incl. rune-width classes, decoded by independent reference decoders",
+         "All Codabar words up to length 5 (thorough 6) and all digit words up to length 6 (thorough 7) plus multi-byte rune classes are executed; symbols are decoded from narrow/wide element runs; the check-digit helper is verified against the 3-1 weighted sum.", E_NOTE, "4.C08"),
+ "C14": ("E+B", "the C05/C06/C07 enumerations with the CheckSum() oracle, plus exhaustive sequences of 1..3 Scale operations on a fixed sub-family",
+         "CheckSum() is compared with the reference check value and with the decoded check character on every accepted EAN / Code 128 / Code 39 input of the enumerations, and must be preserved (and still exposed) through every sequence of up to three Scale operations.", E_NOTE, "4.C14"),
+})
 pending_reason = "check not built yet in this round (planned, see DESIGN.md section 4); not claimed until its explorer exists and passes on the unchanged tree"
 
 checks = []
